@@ -51,11 +51,15 @@ def script_of(hist):
 def run_world(ck, exe, n_random, first_exec=0, stride=4, mc=True):
     """mc: run the bounded model + anti-vacuity configs + replay of exported histories; always: n_random random world clients."""
     if mc:
-        ck.mc("MCWorld", "W_mc.cfg", workers=8, xmx="8g", timeout=1800)
+        # (the export configuration W_g.cfg checks the same invariants and action properties over the same graph as W_mc.cfg
+        # while it prints the histories: one exploration serves both in the quick tier)
+        if ck.tier == "thorough":
+            ck.mc("MCWorld", "W_mc.cfg", workers=8, xmx="8g", timeout=1800)
         for m in MUTS:
             ck.mc_must_fail("MCWorld", "W_asfound_%s.cfg" % m, workers=4, timeout=600)
         hists, r = vlib.tlc_export_edges("GWorld", "W_g.cfg", timeout=2400, xmx="8g")
         ck.add_tlc(r)
+        ck.stage("tlc:W_g.cfg(invariants+properties+export)", __import__("time").time(), distinct=r.distinct, generated=r.generated, cached=bool(getattr(r, "cached", False)))
         scripts = [script_of(h) for i, h in enumerate(hists) if i % stride == vlib.SEED % stride]
         ck.extra["world_g_edges"] = len(hists)
         ck.extra["world_g_scripts"] = len(scripts)
